@@ -872,3 +872,31 @@ Proof.
   split; [exact valid_doc_wf|]. split; [exact valid_doc_loads|].
   apply load_no_crash_wellformed. constructor; [exact valid_doc_wf | constructor].
 Qed.
+
+(* ------------------------------------------------------------------ the theorems under the names of the task *)
+
+(* no tree makes the loader (as it is now) dereference an absent entry *)
+Theorem root_total : forall client_ok tool_known tool_creates attr_ok ownership_ok docs,
+  Forall (tree_ok true) docs ->
+  load true client_ok tool_known tool_creates attr_ok ownership_ok docs <> LoadCrash.
+Proof. exact (load_no_crash true). Qed.
+
+(* the loader before c91b855 did *)
+Theorem root_total_unrepaired_refuted : exists docs, load_parse_cmd false docs = LoadCrash.
+Proof. exists null_value_doc. vm_compute. reflexivity. Qed.
+
+Theorem root_requires_client : forall g client_ok tool_known tool_creates attr_ok ownership_ok docs s,
+  load g client_ok tool_known tool_creates attr_ok ownership_ok docs = LoadOk s ->
+  exists cl more, docs = [YMapping ((YScalar s_client, YMapping cl) :: more)].
+Proof.
+  intros g client_ok tool_known tool_creates attr_ok ownership_ok docs s H.
+  destruct (load_ok_shape _ _ _ _ _ _ _ _ H) as [cl [more [Eq _]]]. exists cl, more. exact Eq.
+Qed.
+
+Theorem root_sections_order : forall g client_ok tool_known tool_creates attr_ok ownership_ok first more rest s,
+  load g client_ok tool_known tool_creates attr_ok ownership_ok (YMapping (first :: more) :: rest) = LoadOk s ->
+  keys_subseq section_order (map fst more) = true.
+Proof.
+  intros g client_ok tool_known tool_creates attr_ok ownership_ok first more rest s H.
+  destruct (load_ok_shape _ _ _ _ _ _ _ _ H) as [cl [more' [Eq Hk]]]. inversion Eq. subst. exact Hk.
+Qed.
